@@ -51,6 +51,7 @@ type FuncContract struct {
 	HasMod   bool
 	NoPanic  bool
 	Trusted  bool // contract assumed at call sites, body not verified (listed in evidence)
+	Extern   bool // method of a dependency package
 	Pure     bool
 	Loops    map[int]*LoopSpec
 	Sites    []SiteSpec
@@ -94,7 +95,7 @@ type SpecFile struct {
 }
 
 var directiveKW = map[string]bool{
-	"spec": true, "func": true, "mode": true, "requires": true, "ensures": true, "modifies": true,
+	"spec": true, "func": true, "extern": true, "mode": true, "requires": true, "ensures": true, "modifies": true,
 	"nopanic": true, "loop": true, "site": true, "ghost": true, "lemma": true, "assume": true,
 	"prop": true, "trusted": true, "pure": true, "end": true,
 }
@@ -164,7 +165,9 @@ func ParseSpecFile(fset *token.FileSet, f *ast.File) (*SpecFile, error) {
 			}
 			sf.Specs = append(sf.Specs, s)
 			cur, curLemma = nil, nil
-		case "func":
+		case "func", "extern":
+			// extern func (r *pkg.T) M(...): contract for a method of a dependency (always trusted)
+			rest = strings.TrimPrefix(rest, "func ")
 			src := "package p\nfunc " + rest
 			fs := token.NewFileSet()
 			pf, err := parser.ParseFile(fs, "c.go", src, 0)
@@ -174,6 +177,11 @@ func ParseSpecFile(fset *token.FileSet, f *ast.File) (*SpecFile, error) {
 			fd := pf.Decls[0].(*ast.FuncDecl)
 			cur = &FuncContract{Decl: fd, DeclText: rest, Loops: map[int]*LoopSpec{}, Line: d.line, File: sf.Path}
 			cur.Key = declKey(fd)
+			if kw == "extern" {
+				cur.Extern = true
+				cur.Trusted = true
+				sf.Assumes = append(sf.Assumes, fmt.Sprintf("extern (trusted) contract for %s", cur.Key))
+			}
 			for _, fl := range fd.Type.Params.List {
 				for _, n := range fl.Names {
 					cur.ParamNames = append(cur.ParamNames, n.Name)
